@@ -1004,7 +1004,7 @@ func (c *Ctx) privateTo(root, fn *ssa.Function) bool {
 		if g.Blocks == nil {
 			continue
 		}
-		allInstrs(g, false, func(i ssa.Instruction) {
+		rawInstrs(g, false, func(i ssa.Instruction) {
 			if !ok {
 				return
 			}
